@@ -448,8 +448,12 @@ pub fn sender_blocking<M: ZooMsg + ?Sized>(sh: Shared, plan: Arc<Plan>) {
         let mut resends = 0u32;
         // the send buffer starts as uninitialised heap memory (differs from process to process,
         // and padding bytes of a frame are whatever was there): give it a defined start
+        // geometry of the buffer a fresh sender hands out: the reference for every later alloc()
+        let mut base_geom = (0usize, 0usize);
         if let Ok(mut ug) = sender.alloc() {
-            ug.as_mut_bytes().fill(0);
+            let b = ug.as_mut_bytes();
+            base_geom = (b.len(), b.as_ptr() as usize % M::ALIGN);
+            b.fill(0);
         }
         let (abandon_p, prefill) = sender_policy(&sh);
         while i < plan.msgs.len() {
@@ -477,12 +481,16 @@ pub fn sender_blocking<M: ZooMsg + ?Sized>(sh: Shared, plan: Arc<Plan>) {
                     }
                 }
             }
-            let ug = match sender.alloc() {
+            let mut ug = match sender.alloc() {
                 Ok(g) => g,
                 Err(e) => {
                     lock(&sh).harness_error = Some(format!("alloc failed: {}", err_kind_name(&e)));
                     return;
                 }
+            };
+            let cur_geom = {
+                let b = ug.as_mut_bytes();
+                (b.len(), b.as_ptr() as usize % M::ALIGN)
             };
             let ug = match prefill {
                 Some(b) => {
@@ -507,6 +515,12 @@ pub fn sender_blocking<M: ZooMsg + ?Sized>(sh: Shared, plan: Arc<Plan>) {
             let mut g = match built {
                 Ok(g) => g,
                 Err(e) => {
+                    if cur_geom.0 < base_geom.0 || cur_geom.1 != base_geom.1 {
+                        // the planned message fits the buffer of a fresh sender; after this history alloc()
+                        // hands out a shorter or differently aligned one and the message is refused
+                        lock(&sh).violate("", "0-send-buffer", "shrunk-or-misaligned", "alloc", format!("message {}: alloc() handed out {} bytes at offset {} mod ALIGN (a fresh sender: {} bytes at {}), emplacement refused with {:?}", i, cur_geom.0, cur_geom.1, base_geom.0, base_geom.1, e));
+                        return;
+                    }
                     lock(&sh).harness_error = Some(format!("planned message {} does not emplace in the send buffer: {:?}", i, e));
                     return;
                 }
@@ -732,8 +746,12 @@ pub async fn sender_async<M: ZooMsg + ?Sized>(sh: Shared, plan: Arc<Plan>) {
     let mut i = 0usize;
     let mut resends = 0u32;
     // see sender_blocking
+    // geometry of the buffer a fresh sender hands out: the reference for every later alloc()
+    let mut base_geom = (0usize, 0usize);
     if let Ok(mut ug) = sender.alloc().await {
-        ug.as_mut_bytes().fill(0);
+        let b = ug.as_mut_bytes();
+        base_geom = (b.len(), b.as_ptr() as usize % M::ALIGN);
+        b.fill(0);
     }
     let (abandon_p, prefill) = sender_policy(&sh);
     while i < plan.msgs.len() {
@@ -760,12 +778,16 @@ pub async fn sender_async<M: ZooMsg + ?Sized>(sh: Shared, plan: Arc<Plan>) {
                 }
             }
         }
-        let ug = match sender.alloc().await {
+        let mut ug = match sender.alloc().await {
             Ok(g) => g,
             Err(e) => {
                 lock(&sh).harness_error = Some(format!("alloc failed: {}", err_kind_name(&e)));
                 return;
             }
+        };
+        let cur_geom = {
+            let b = ug.as_mut_bytes();
+            (b.len(), b.as_ptr() as usize % M::ALIGN)
         };
         let ug = match prefill {
             Some(b) => {
@@ -790,6 +812,12 @@ pub async fn sender_async<M: ZooMsg + ?Sized>(sh: Shared, plan: Arc<Plan>) {
         let mut g = match built {
             Ok(g) => g,
             Err(e) => {
+                if cur_geom.0 < base_geom.0 || cur_geom.1 != base_geom.1 {
+                    // the planned message fits the buffer of a fresh sender; after this history alloc()
+                    // hands out a shorter or differently aligned one and the message is refused
+                    lock(&sh).violate("", "0-send-buffer", "shrunk-or-misaligned", "alloc", format!("message {}: alloc() handed out {} bytes at offset {} mod ALIGN (a fresh sender: {} bytes at {}), emplacement refused with {:?}", i, cur_geom.0, cur_geom.1, base_geom.0, base_geom.1, e));
+                    return;
+                }
                 lock(&sh).harness_error = Some(format!("planned message {} does not emplace in the send buffer: {:?}", i, e));
                 return;
             }
